@@ -490,7 +490,50 @@ fn sum_of(refs: &[String], param: &str) -> String {
     }
 }
 
+/// A ring of mutually recursive functions, some of which mention late non-value definitions, and
+/// several non-value definitions that reach those only through different members of the ring
+/// (memoised / cached / pruned reachability computations differ on which member they enter first).
+fn ring_program(rng: &mut Rng) -> String {
+    let k = rng.range(2, 4);
+    let m = rng.range(2, 4);
+    let late = rng.range(1, 2);
+    let funs: Vec<String> = (0..k).map(|i| format!("fn{i}")).collect();
+    let lates: Vec<String> = (0..late).map(|i| format!("late{i}")).collect();
+    let mut lines: Vec<String> = vec![];
+    let mut defs: Vec<String> = vec![];
+    for (i, f) in funs.iter().enumerate() {
+        let next = &funs[(i + 1) % k];
+        let extra = if rng.chance(1, 2) { format!("{} + ", lates[rng.below(late)]) } else { String::new() };
+        defs.push(format!("{f} = x{i} => if x{i} == 0 then {extra}{i} else {next} (x{i} - 1)"));
+    }
+    for j in 0..m {
+        let a = &funs[rng.below(k)];
+        let b = &funs[rng.below(k)];
+        let body = match rng.below(3) {
+            0 => format!("{a} {j}"),
+            1 => format!("{a} {j} + {b} {}", j + 1),
+            _ => format!("{b} ({a} {j})"),
+        };
+        defs.push(format!("use{j} = {body}"));
+    }
+    // the functions and their users in a seeded order, the late definitions after them
+    for i in (1..defs.len()).rev() {
+        let j = rng.below(i + 1);
+        defs.swap(i, j);
+    }
+    lines.extend(defs);
+    for (i, l) in lates.iter().enumerate() {
+        lines.push(format!("{l} = {} + {}", i + 2, i + 3));
+    }
+    let users: Vec<String> = (0..m).map(|j| format!("use{j}")).collect();
+    lines.push(users.join(" + "));
+    lines.join("\n") + "\n"
+}
+
 fn cluster_program(rng: &mut Rng) -> String {
+    if rng.chance(1, 6) {
+        return ring_program(rng);
+    }
     let nest = rng.below(3);
     if rng.chance(1, 5) {
         // the group sits under lambda binders whose parameters its definitions mention, and the
